@@ -6,6 +6,7 @@ import AcraModel.Envelope.ScanLemmas
 import AcraModel.Envelope.ExampleOps
 import AcraModel.Envelope.TranslatorLemmas
 import AcraModel.Envelope.SearchWriteLemmas
+import AcraModel.Envelope.SearchWriteBare
 import AcraModel.Generated.SearchWrite
 import AcraModel.Crypto.Box
 /-!
@@ -1108,6 +1109,59 @@ theorem searchable_preprotected_container_roundtrip (c : CryptoOps) (hl : HashLe
   cases hs
   exact ⟨searchableEncrypt_match c hk kvS k _ m rnd' hreg hrS, hi, hc⟩
 
+/-- **The bare AcraStruct form (AcraWriter), all hypotheses about the envelope itself.** `e` is a
+well-formed AcraStruct with a non-empty payload that the struct handler opens to `m` with the session's
+keys `kvS` and with the owner's keys `kvR`. No crypto law is needed: the statement is about what the
+code does with such a value. Two side conditions come from in-band signalling in the reader's legacy
+scans (they are decidable, evaluated by the model for the generated values, and hold whenever the
+ciphertext contains no `%%%`+header look-alike and the plaintext no envelope look-alike): `hw` – the
+container scan passes over every position of `e` (`windowOk`, the condition of C11 §8); `hm` – the
+PLAINTEXT contains no bare AcraBlock/AcraStruct the reader can open (automatic for plaintexts shorter
+than 18 bytes, `short_plain_not_opened`). Then the write stores `GenerateHMAC(key, m) ++ e` and the owner's
+read chain returns exactly `m`. -/
+theorem searchable_preprotected_bare_struct_roundtrip (c : CryptoOps) (hl : HashLen c) (k : Kind)
+    (kvS kvR : KeyView) (hk e m rnd : Bytes) (st : PState)
+    (hv : validateStruct e = .ok ()) (hgt : structMin < e.length) (hlen : e.length + 12 < 2^63)
+    (hdS : decryptKind c kvS .struct e = .ok m) (hdR : decryptKind c kvR .struct e = .ok m)
+    (hne : m ≠ serBytes e idStruct) (hw : windowOk e [] = true)
+    (hm : ∀ x id s, x <:+: m → serialize x id = .ok s → ∀ m', process c kvR s ≠ .ok m') :
+    searchableEncrypt c (some hk) kvS k e rnd = .ok (generateHMAC c hk m ++ e) ∧
+    index (generateHMAC c hk m ++ e) = generateHMAC c hk m ∧
+    column c (some hk) (clientDetector c kvR) st (generateHMAC c hk m ++ e) = .ok (PState.init, some m) := by
+  obtain ⟨hreg, hproc⟩ := bare_struct_registry c kvS e hv
+  have hpS : process c kvS e = .ok m := by rw [hproc, hdS]
+  have hme := matchEnvelope_bare_struct e hv hgt (by omega)
+  have hdet := clientDetector_bare_struct c kvR e m hv hgt hlen hdR hne hw hm
+  obtain ⟨s, hs, hi, hc⟩ := searchable_preprotected_roundtrip c hl hk kvS kvR k e m rnd st false hreg hpS hme hdet
+  rw [searchableEncrypt_match c hk kvS k e m rnd hreg hpS] at hs
+  cases hs
+  exact ⟨searchableEncrypt_match c hk kvS k e m rnd hreg hpS, hi, hc⟩
+
+/-- **The raw AcraBlock form.** `e` is exactly one AcraBlock (longer than the bare header) that is not at
+the same time a well-formed AcraStruct (`hns`; an AcraBlock whose length field spells the second half of
+the AcraStruct tag would be longer than 572 MB) and that the block handler opens to `m` with either key
+view. Side conditions as above: `hw` – the container scan passes over `e`; `hs` – no part of `e`,
+wrapped as an AcraStruct container, opens for the reader (automatic for a client without private keys,
+`process_struct_container_no_privs`; the legacy struct scan runs over the block first). -/
+theorem searchable_preprotected_bare_block_roundtrip (c : CryptoOps) (hl : HashLen c) (k : Kind)
+    (kvS kvR : KeyView) (hk e m rnd : Bytes) (st : PState)
+    (hns : validateStruct e = .err) (hx : extractBlock e = .ok (e.length, e)) (hgt : blockMin < e.length)
+    (hlen : e.length + 12 < 2^63)
+    (hdS : decryptKind c kvS .block e = .ok m) (hdR : decryptKind c kvR .block e = .ok m)
+    (hne : m ≠ serBytes e idBlock) (hw : windowOk e [] = true)
+    (hs : ∀ x s, x <:+: e → serialize x idStruct = .ok s → ∀ m', process c kvR s ≠ .ok m') :
+    searchableEncrypt c (some hk) kvS k e rnd = .ok (generateHMAC c hk m ++ e) ∧
+    index (generateHMAC c hk m ++ e) = generateHMAC c hk m ∧
+    column c (some hk) (clientDetector c kvR) st (generateHMAC c hk m ++ e) = .ok (PState.init, some m) := by
+  obtain ⟨hreg, hproc⟩ := bare_block_registry c kvS e e e.length hns hx
+  have hpS : process c kvS e = .ok m := by rw [hproc, hdS]
+  have hme := matchEnvelope_bare_block e hx hgt
+  have hdet := clientDetector_bare_block c kvR e m hx hgt hlen hdR hne hw hs
+  obtain ⟨s, hs', hi, hc⟩ := searchable_preprotected_roundtrip c hl hk kvS kvR k e m rnd st false hreg hpS hme hdet
+  rw [searchableEncrypt_match c hk kvS k e m rnd hreg hpS] at hs'
+  cases hs'
+  exact ⟨searchableEncrypt_match c hk kvS k e m rnd hreg hpS, hi, hc⟩
+
 end SearchableWrite
 
 /-! ## non-vacuity: every hypothesis bundle above is satisfied by a concrete instance -/
@@ -1387,6 +1441,77 @@ example :
   obtain ⟨h1, _, h3⟩ := searchable_preprotected_container_roundtrip toyOps toy_hashLen .block .struct kvW kvR kvR [7] [9,9]
     (List.replicate 56 5) (List.replicate 96 6) p dirty hH hH hnm hnr hp
   exact ⟨p, hp, h1, h3⟩
+
+/-- executable instances for the non-vacuity examples of the bare-envelope theorems, whose hypotheses are
+about concrete outcomes (no crypto law is assumed there): `lenBoxOps` – the transparent box (all seal laws)
+with 32-byte hashes; `plainOps` – "sealing" appends a marker byte, keys are padded to the AcraStruct
+layout (45-byte public key, 84-byte wrapped key) -/
+def lenBoxOps : CryptoOps :=
+  { boxOps with hmac := fun _ m => (m ++ List.replicate 32 0).take 32,
+                sha256 := fun m => (m ++ List.replicate 32 0).take 32 }
+
+theorem lenBoxOps_hashLen : HashLen lenBoxOps where
+  hmac_len := by intro k m; simp [lenBoxOps, List.length_take]
+  sha_len := by intro m; simp [lenBoxOps, List.length_take]
+
+def plainOps : CryptoOps :=
+  { enc := fun _ _ m _ => some (m ++ [1]), dec := fun _ _ ct => some ct.dropLast,
+    wrap := fun _ _ m _ => some ((m ++ List.replicate 84 0).take 84), unwrap := fun _ _ ct => some (ct.take 32),
+    pubOf := fun p => (p ++ List.replicate 45 0).take 45, validPriv := fun _ => true, privOfSeed := id,
+    hmac := fun _ m => (m ++ List.replicate 32 0).take 32, sha256 := fun m => (m ++ List.replicate 32 0).take 32 }
+
+theorem plainOps_hashLen : HashLen plainOps where
+  hmac_len := by intro k m; simp [plainOps, List.length_take]
+  sha_len := by intro m; simp [plainOps, List.length_take]
+
+set_option maxRecDepth 100000 in
+/-- 8c: a raw AcraBlock (created with key `[1,2,3]` around `[9,9]`, transparent box) written to a searchable
+column by a symmetric-only client whose rotated key list still holds `[1,2,3]`, and read back. -/
+example :
+    let kv : KeyView := ⟨none, none, some [4,5], some [[4,5],[1,2,3]]⟩
+    ∃ e, createBlock lenBoxOps [1,2,3] [] [9,9] (List.replicate 56 5) = .ok e ∧
+      Searchable.searchableEncrypt lenBoxOps (some [7]) kv .struct e (List.replicate 96 6) =
+        .ok (Searchable.generateHMAC lenBoxOps [7] [9,9] ++ e) ∧
+      Searchable.column lenBoxOps (some [7]) (Searchable.clientDetector lenBoxOps kv) Searchable.PState.init
+        (Searchable.generateHMAC lenBoxOps [7] [9,9] ++ e) = .ok (Searchable.PState.init, some [9,9]) := by
+  intro kv
+  obtain ⟨e, he⟩ : ∃ e, createBlock lenBoxOps [1,2,3] [] [9,9] (List.replicate 56 5) = .ok e := by
+    cases h : createBlock lenBoxOps [1,2,3] [] [9,9] (List.replicate 56 5) with
+    | ok e => exact ⟨e, rfl⟩
+    | err => exact absurd h (by decide)
+    | panic => exact absurd h (by decide)
+  have hev : e = (match createBlock lenBoxOps [1,2,3] [] [9,9] (List.replicate 56 5) with | .ok b => b | _ => []) := by rw [he]
+  have hlen : e.length = 176 := by rw [hev]; decide
+  obtain ⟨h1, _, h3⟩ := searchable_preprotected_bare_block_roundtrip lenBoxOps lenBoxOps_hashLen .struct kv kv [7] e [9,9]
+    (List.replicate 96 6) Searchable.PState.init (by rw [hev]; decide) (by rw [hev]; decide) (by rw [hlen]; decide)
+    (by rw [hlen]; decide) (by rw [hev]; decide) (by rw [hev]; decide) (by rw [hev]; decide) (by rw [hev]; decide)
+    (fun x s hx hser => Searchable.process_struct_container_no_privs lenBoxOps kv rfl x s
+      (by have := infix_length_le hx; omega) hser)
+  exact ⟨e, he, h1, h3⟩
+
+set_option maxRecDepth 100000 in
+/-- 8d: a bare AcraStruct (`plainOps`, public key `[8]`) around `[9,9]` written to a searchable column and
+read back by a client holding the private key `[3]`. -/
+example :
+    let kv : KeyView := ⟨some [8], some [[3]], none, none⟩
+    ∃ e, createStruct plainOps [8] [] [9,9] (List.replicate 88 7) = .ok e ∧
+      Searchable.searchableEncrypt plainOps (some [7]) kv .block e (List.replicate 96 6) =
+        .ok (Searchable.generateHMAC plainOps [7] [9,9] ++ e) ∧
+      Searchable.column plainOps (some [7]) (Searchable.clientDetector plainOps kv) Searchable.PState.init
+        (Searchable.generateHMAC plainOps [7] [9,9] ++ e) = .ok (Searchable.PState.init, some [9,9]) := by
+  intro kv
+  obtain ⟨e, he⟩ : ∃ e, createStruct plainOps [8] [] [9,9] (List.replicate 88 7) = .ok e := by
+    cases h : createStruct plainOps [8] [] [9,9] (List.replicate 88 7) with
+    | ok e => exact ⟨e, rfl⟩
+    | err => exact absurd h (by decide)
+    | panic => exact absurd h (by decide)
+  have hev : e = (match createStruct plainOps [8] [] [9,9] (List.replicate 88 7) with | .ok b => b | _ => []) := by rw [he]
+  have hlen : e.length = 148 := by rw [hev]; decide
+  obtain ⟨h1, _, h3⟩ := searchable_preprotected_bare_struct_roundtrip plainOps plainOps_hashLen .block kv kv [7] e [9,9]
+    (List.replicate 96 6) Searchable.PState.init (by rw [hev]; decide) (by rw [hlen]; decide) (by rw [hlen]; decide)
+    (by rw [hev]; decide) (by rw [hev]; decide) (by rw [hev]; decide) (by rw [hev]; decide)
+    (Searchable.short_plain_not_opened plainOps kv [9,9] (by decide))
+  exact ⟨e, he, h1, h3⟩
 
 /-- 9: the same table for the AcraStruct kind on the stand-in instance with 32-byte hashes: `Encrypt`
 round-trips through `Decrypt`, and every consumer that accepts AcraStructs reveals the plaintext of the
